@@ -96,6 +96,10 @@ def run_case(case):
         spec = ['sleep', 30]
     if ending[0] == 'signal':
         spec = ['sleep', 30] if ending[2] != 'after' else ['linger', 'lingered', 30]
+        if ending[1] == 'SIGINT' and ending[2] == 'before':
+            # a SIGINT that arrives while the child interpreter is still starting can be swallowed by CPython itself;
+            # the target then simply runs: keep it short, and require only consistency among the accessors
+            spec = ['sleep', 1.5]
     fz = None
     if case.get('delay_run'):
         # the new thread is slow to reach run(): a legal schedule
